@@ -15,7 +15,7 @@ import CookModel.Side.Serde
   string and key spelled as a quoted list of code points, every f64 as `#<bit pattern>`; integers
   as they are.  The harness rewrites the real output into the same form.
 -/
-namespace Cook.Driver
+namespace Cook.Driver.SerdeH
 open Cook Sexp Serde Proto
 
 /-- the number codec of the driver: an `f64` is printed as `#` + its bit pattern -/
@@ -98,16 +98,21 @@ def decScaledData : Sexp → Option (Scaled Float)
     return .scaled (← bits? f) (← listOf? decOutcomeAtom i) (← listOf? decOutcomeAtom c) (← listOf? decOutcomeAtom t)
   | _ => none
 
+end Cook.Driver.SerdeH
+
+namespace Cook.Driver
+open Cook Sexp Serde Proto SerdeH
+
 def handleSerde : List String → Option String
   | "json" :: "scalable" :: rest => do
     let [.list [.atom "full", m, d, r]] ← parseAll rest | none
     let full : FullRecipe Float (ScalableValue Float) Servings :=
-      { metadata := ← decMeta m, recipe := ← decScalableRecipe r, data := ← opt? (listOf? nat?) d }
+      { metadata := ← decMeta m, recipe := ← RecipeSexp.decScalableRecipe r, data := ← opt? (listOf? nat?) d }
     return rJson (encScalableRecipe bitsCodec full)
   | "json" :: "scaled" :: rest => do
     let [.list [.atom "full", m, d, r]] ← parseAll rest | none
     let full : FullRecipe Float (Value Float) (Scaled Float) :=
-      { metadata := ← decMeta m, recipe := ← decScaledRecipe r, data := ← decScaledData d }
+      { metadata := ← decMeta m, recipe := ← RecipeSexp.decScaledRecipe r, data := ← decScaledData d }
     return rJson (encScaledRecipe bitsCodec full)
   | _ => none
 
